@@ -108,6 +108,10 @@ def _unfloat(flt, precision=5):
 
     num, _, exp = f"{flt:.{precision - 1}e}".partition("e")
     exp = int(exp)
+    if exp + 1 < -9:
+        # The exponent has a single column: below 1e-10 the mantissa is not normalised
+        digits = round(abs(flt) * 10 ** (9 + precision))
+        return f"{'-' if flt < 0 else ''}{digits:0{precision}d}-9"
     num = num.replace(".", "")
 
     return f"{num}{exp+1:+d}"
